@@ -305,7 +305,7 @@ func (env *ExecEnv) expandParam(fields []*field, pe *ast.ParamExp, mode ExpMode)
 				var n int
 				if pe.Name.Value == "@" {
 					n = len(a)
-				} else {
+				} else if len(a) != 0 {
 					n = utf8.RuneCountInString(a[0])
 				}
 				fields[len(fields)-1].join(strconv.Itoa(n), quote)
